@@ -17,6 +17,8 @@ pub struct Random<M: ManagedTypeApi + CryptoApi> {
 
 impl<M: ManagedTypeApi + CryptoApi> Default for Random<M> {
     fn default() -> Self {
+        #[cfg(launchpad_verif)]
+        crate::verif_hooks::note_fresh();
         Self {
             seed: ManagedBuffer::new_random(HASH_LEN),
             index: 0,
@@ -42,6 +44,12 @@ impl<M: ManagedTypeApi + CryptoApi> Random<M> {
             None => M::error_api_impl().signal_error(FAILED_COPY_ERR_MSG),
         };
         let rand = usize::top_decode(raw_buffer).unwrap_or_default();
+        #[cfg(launchpad_verif)]
+        crate::verif_hooks::note_draw(
+            self.seed.to_boxed_bytes().as_slice().to_vec(),
+            self.index,
+            rand,
+        );
 
         self.index += USIZE_BYTES;
 
@@ -60,7 +68,12 @@ impl<M: ManagedTypeApi + CryptoApi> Random<M> {
     }
 
     fn hash_seed(&mut self) {
+        #[cfg(not(launchpad_verif))]
         let handle = self.seed.get_raw_handle();
+        #[cfg(launchpad_verif)]
+        let handle = multiversx_sc::api::HandleConstraints::get_raw_handle_unchecked(
+            &self.seed.get_handle(),
+        );
         M::crypto_api_impl().sha256_managed(handle.into(), handle.into());
 
         self.index = 0;
